@@ -268,6 +268,21 @@ def oracle_fields(fields, idx, level=0) -> list:
     return out
 
 
+def embedded_depth(ds, level) -> int:
+    """how deep attachments are nested that are not themselves written fields (they are embedded in the
+    group of the field that refers to them)"""
+    written = {id(f.data) for _, f in restricted_index(ds, level)}
+
+    def depth(o):
+        best = 0
+        for att in ("other", "ref_pos"):
+            a = getattr(o, att, None) if hasattr(o, "cls_name") else None
+            if a is not None and id(a) not in written:
+                best = max(best, 1 + depth(a))
+        return best
+    return max([depth(f.data) for _, f in restricted_index(ds, level)] + [0])
+
+
 def restricted_index(ds, level):
     """fields (recursively) that are written at this level"""
     def rec(fields, pre):
@@ -296,7 +311,13 @@ def first_diff(a, b, where=""):
                 if d:
                     return d
             elif x != y:
-                return LABELS[a[0]][i], f"{where}{a[1]}: {LABELS[a[0]][i]} read back {str(x)[:200]!r}, written {str(y)[:200]!r}"
+                lab = LABELS[a[0]][i]
+                if lab == "contents":
+                    # the array itself, or something attached to it?
+                    lab = "attachment" if x.split("|o=", 1)[0] == y.split("|o=", 1)[0] else "values"
+                    k = next((j for j, (p, q) in enumerate(zip(x, y)) if p != q), 0)
+                    x, y = "…" + x[max(0, k - 60):k + 140], "…" + y[max(0, k - 60):k + 140]
+                return lab, f"{where}{a[1]}: {lab} read back {str(x)[:200]!r}, written {str(y)[:200]!r}"
         return None
     if isinstance(a, list) and isinstance(b, list):
         na, nb = [x[1] for x in a], [x[1] for x in b]
@@ -387,7 +408,10 @@ def one_dataset(ctx: Ctx, setup_ops, level: int, meta: dict, tmp: str, tag: str)
     got = (e.num_obs, oracle_fields(e._fields, field_index(e._fields), 0))
     d = first_diff(got, want)
     if d:
-        ctx.violate("roundtrip:" + d[0], "read back differs: " + d[1], case)
+        key = "roundtrip:" + d[0]
+        if d[0] == "attachment" and embedded_depth(ds, level) >= 2:
+            key += "[nested-embedded]"   # an anonymous attachment of an anonymous attachment
+        ctx.violate(key, "read back differs: " + d[1], case)
         return
     if restr != "ok:" + render_ds_restricted(ds, level):
         ctx.disagree("restrict (model of 'fields of that level')", case, restr, "ok:" + render_ds_restricted(ds, level))
@@ -505,9 +529,9 @@ def run(ctx: Ctx):
         for t in TRICKY:
             codec_case(ctx, t)
             codec_case(ctx, [t, {"k": t}])
-        for _ in range(ctx.budget(600, 30000)):
+        for _ in range(ctx.budget(3000, 100000)):
             codec_case(ctx, gen_meta(rng))
-        for _ in range(ctx.budget(250, 12000)):
+        for _ in range(ctx.budget(1500, 30000)):
             meta = {f"k{i}": gen_meta(rng) for i in range(rng.choice([0, 1, 2, 4]))}
             meta = {k: v for k, v in meta.items() if v is not None}
             one_dataset(ctx, gen_dataset_ops(rng), rng.choice([1, 2, 3]), meta, tmp, "random")
